@@ -113,6 +113,10 @@ func Thorough() bool { return os.Getenv("VERIF_TIER") == "thorough" }
 // request into a violation "alloc-budget". Natively a no-op.
 func AllocBudget(n int) {}
 
+// SampleSizes declares that sizes and offsets read from the symbolic input are explored at a bounded number of
+// feasible values each (a stated bound) instead of making the run inconclusive when more are feasible. Natively a no-op.
+func SampleSizes() {}
+
 // StepBudget bounds the interpreter steps of the rest of the path; exceeding it is reported as the violation
 // "bounded-work" (the native replay confirms it as a hang under a watchdog). Natively a no-op.
 func StepBudget(n int) {}
